@@ -52,6 +52,9 @@ class ErrResolver:
         m = re.search(r"#define\s+DUTILS_ERROR\s+(\d+)", (d / "c_dutils.h").read_text())
         self.base = int(m.group(1)) if m else None
         self.lines = (d / "c_dutils.c").read_text().splitlines()
+        # does every kernel entry reject nval < 1 before touching element 0?  (only then is an empty call memory-safe)
+        text = "\n".join(self.lines)
+        self.empty_guarded = len(re.findall(r"if\s*\(\s*nval\s*(?:<\s*1|<=\s*0)\s*\)", text)) >= 2
 
     def name(self, ierr):
         if self.base is None:
@@ -762,6 +765,8 @@ def glue_stream(ctx, real, add):
             case = {"aggindex": wide, "inputs": C.flist(vals), "operator": op, "maxnan": maxnan}
             cmp("aggregate(glue)", f"aggw {op} {maxnan} {C.ilist(wide)} {C.flist(vals)}", real.raw("aggregate", aw, x, op, maxnan)[0], case, kind)
             cmp("flathomogen(glue)", f"homogw {maxnan} {C.ilist(wide)} {C.flist(vals)}", real.raw("flathomogen", aw, x, maxnan)[0], case, kind)
+        elif kind == "empty" and not real.err.empty_guarded:
+            ctx.count(("glue-empty-skipped", it), False, "glue/empty_skipped(kernel has no nval<1 guard)")
         elif kind == "empty":
             e_a, e_x = np.array([], dtype=np.int64), np.array([], dtype=np.float64)
             cmp("aggregate(glue)", f"aggw {op} {maxnan} [] []", real.raw("aggregate", e_a, e_x, op, maxnan)[0], {"aggindex": [], "inputs": "[]"}, kind)
